@@ -197,7 +197,8 @@ def run_case(case, ctx):
             try:
                 p = minimal(pcls, 3)
                 child = make()
-                setattr(p, member, [child] if is_list else child)
+                # in a list the violated child comes after a valid sibling (every item must be validated)
+                setattr(p, member, [minimal(child.__class__, 3), child] if is_list else child)
             except Exception:
                 hit("parent_build_failed")
                 continue
@@ -265,7 +266,8 @@ def run_case(case, ctx):
                 setattr(i, member, [minimal(ccls, 3) for _ in range(cmin - 1)] if is_list and cmin > 1 else ([] if is_list else None))
                 return i
             expect_raise(make, "child %s below min %s" % (member, cmin), [case["module"], case["cls"], "below-min", member], positions)
-        if cmax is not None and is_list:
+        if cmax is not None:
+            # (for a single-valued member the API still accepts a list; that is how "more than max" can be represented)
             try:
                 n = int(cmax)
             except (TypeError, ValueError):
@@ -287,6 +289,37 @@ def run_case(case, ctx):
                     pass
             setattr(i, member, [minimal(ccls, 3) for _ in range(k)])
             expect_ok(i, "child %s x%d within bounds" % (member, k), [case["module"], case["cls"], "within-bounds", member, "-", "root"])
+    # (4) the same bound at the level of a *parsed* message: a single-valued child (explicit max 1) repeated in the text
+    import saml2_tophat
+    from vlib import xmlkit as xk
+    for member, card in sorted(cls.c_cardinality.items()):
+        if member not in specs or not isinstance(specs[member][0], type) or specs[member][1]:
+            continue
+        if card.get("max") not in (1, "1"):
+            continue
+        ccls = specs[member][0]
+        try:
+            i = minimal(cls)
+            setattr(i, member, minimal(ccls, 3))
+            d = xk.Doc(i.to_string())
+            kid = [c for c in d.root.children if (c.ns, c.local) == (ccls.c_namespace, ccls.c_tag)]
+            if len(kid) != 1:
+                continue
+            twice = d.insert_after(kid[0], d.outer(kid[0])).b
+            parsed = saml2_tophat.create_class_from_xml_string(cls, twice)
+        except Exception:
+            hit("parsed_duplicate_not_buildable")
+            continue
+        if parsed is None:
+            hit("parsed_duplicate_refused_by_parser")
+            continue
+        hit("reject_direction_parsed_text")
+        sigs.append([case["module"], case["cls"], "repeated-single-child-in-text", member, "parsed"])
+        r = validate(parsed)
+        if r[0] == "ok":
+            viol.append({"key": "C13/repeated-single-child-in-parsed-message-not-rejected",
+                         "what": "%s: text with two <%s> children (max 1) parses and valid_instance returned %r" % (case["id"], ccls.c_tag, r[1]),
+                         "detail": {"xml": twice.decode("utf-8", "replace")[:1500]}})
     uniq = {}
     for v in viol:
         uniq.setdefault(v["key"] + v["what"][:80], v)
